@@ -165,7 +165,7 @@ def _arange_blocks(e, arr, g, what):
     return out
 
 
-def mk_arange(R, cmax, steps):
+def mk_arange(R, cmax, steps, max_blocks=None, every=5):
     def setup(e):
         form = e.pick("form", FORMS)
         step = e.pick("step", steps) if form == "start_stop_step" else 1
@@ -173,6 +173,9 @@ def mk_arange(R, cmax, steps):
         stop = e.int("stop", -R, R)
         c = e.int("c", 1, cmax)
         p = e.int("p", 0, 2 * R)
+        if max_blocks is not None:
+            # wide value ranges: the number of blocks (concretised by normalize_chunks) is bounded instead of the sizes
+            e.assume(lambda: _rlen(e, start, stop, step) <= max_blocks * c)
         return form, start, stop, step, c, p
 
     def run(e, form, start, stop, step, c, p):
@@ -210,8 +213,10 @@ def mk_arange(R, cmax, steps):
         start = model.get("start", 0)
         stop, c = model["stop"], model["c"]
         _e2e_arange(form, start, stop, step, c)
+        _e2e_1d(start, stop, step, c, model.get("p", 0))
 
-    return Obligation(f"arange[|start|,|stop|<={R},c<={cmax},steps={list(steps)}]", setup, run, patches=_patches, e2e=e2e, e2e_every=3)
+    nb = "" if max_blocks is None else f",blocks<={max_blocks}"
+    return Obligation(f"arange[|start|,|stop|<={R},c<={cmax}{nb},steps={list(steps)}]", setup, run, patches=_patches, e2e=e2e, e2e_every=every)
 
 
 def _cmp(tag, d, ref, chunks_sum=True):
@@ -232,10 +237,73 @@ def _e2e_arange(form, start, stop, step, c):
     _cmp(f"arange({form}, {start}, {stop}, {step}, chunks={c})", _arange_call(form, start, stop, step, c), ref)
 
 
+def _close(tag, d, ref, scale):
+    """float-driven routine: shape, dtype, chunk sums exact; values within 8 eps of the magnitude of the end points"""
+    if tuple(sum(c) for c in d.chunks) != tuple(ref.shape) or d.shape != ref.shape:
+        raise Violation(f"{tag}: lazy chunks {d.chunks} do not add up to NumPy's shape {ref.shape}")
+    got = d.compute(scheduler="sync")
+    if d.dtype != ref.dtype or got.dtype != ref.dtype:
+        raise Violation(f"{tag}: dtype {d.dtype}/{got.dtype} differs from NumPy's {ref.dtype}")
+    if got.shape != ref.shape or not bool((np.abs(got - ref) <= 8 * np.finfo(float).eps * scale).all()):
+        raise Violation(f"{tag}: values differ from NumPy's by more than 8 eps")
+
+
+def _e2e_1d(start, stop, step, c, p):
+    """witnesses for the float / NumPy driven 1-d routines with the path model's sizes (not part of the symbolic claim)"""
+    for dt in ("f8", "i4"):
+        _cmp(f"arange({start}, {stop}, {step}, chunks={c}, dtype={dt})", da.arange(start, stop, step, chunks=c, dtype=dt), np.arange(start, stop, step, dtype=dt))
+    # dyadic fractional steps and starts: every value and the length computation are exact in binary floating point
+    for (s0, st) in ((start, step / 2), (start + 0.5, step * 0.25), (float(start), float(step))):
+        _cmp(f"arange({s0}, {stop}, {st}, chunks={c})", da.arange(s0, stop, st, chunks=c), np.arange(s0, stop, st))
+    num = p % 9
+    scale = max(abs(start), abs(stop), 1)
+    for ep in (True, False):
+        tag = f"linspace({start}, {stop}, {num}, endpoint={ep}, chunks={c})"
+        _close(tag, da.linspace(start, stop, num, endpoint=ep, chunks=c), np.linspace(start, stop, num, endpoint=ep), scale)
+        d, dstep = da.linspace(start, stop, num, endpoint=ep, chunks=c, retstep=True)
+        r, rstep = np.linspace(start, stop, num, endpoint=ep, retstep=True)
+        # for num < 2 NumPy returns step nan where dask returns a finite number (reported; the step is not an array the property speaks about)
+        if num >= 2 and dstep != rstep:
+            raise Violation(f"{tag}: retstep {dstep} differs from NumPy's {rstep}")
+        _close(tag + " retstep", d, r, scale)
+    _close(f"linspace({start}, {stop}, {num}, dtype=f4, chunks={c})", da.linspace(start, stop, num, chunks=c, dtype="f4"), np.linspace(start, stop, num, dtype="f4"), scale * 2 ** 30)
+    n = len(range(start, stop, step))
+    _cmp(f"indices(({n},), chunks=({c},))", da.indices((n,), chunks=(c,)), np.indices((n,)))
+    _cmp(f"fromfunction(1-d {n}, chunks={c})", da.fromfunction(lambda i: i * step + start, shape=(n,), chunks=c, dtype=int),
+         np.fromfunction(lambda i: i * step + start, (n,), dtype=int))
+    x = np.arange(start, stop, step)
+    dx = da.arange(start, stop, step, chunks=c)
+    _cmp(f"ones_like(arange {n}, chunks={c})", da.ones_like(dx), np.ones_like(x))
+    _cmp(f"full_like(arange {n}, chunks={c})", da.full_like(dx, step), np.full_like(x, step))
+    _cmp(f"zeros_like(arange {n}, dtype=f4)", da.zeros_like(dx, dtype="f4"), np.zeros_like(x, dtype="f4"))
+
+
+def _e2e_2d(N, M, c, k):
+    """witnesses for the NumPy driven 2-d routines with the path model's sizes (not part of the symbolic claim)"""
+    c2 = 1 + abs(k) % 3
+    tag = f"N={N}, M={M}, chunks=({c},{c2})"
+    for dt in (int, float):
+        _cmp(f"indices({tag}, dtype={dt})", da.indices((N, M), dtype=dt, chunks=(c, c2)), np.indices((N, M), dtype=dt))
+    xs, ys = np.arange(N) * 2 + 1, np.arange(M) - k
+    dxs, dys = da.from_array(xs, chunks=c), da.from_array(ys, chunks=c2)
+    for indexing in ("xy", "ij"):
+        for sparse in (False, True):
+            got = da.meshgrid(dxs, dys, indexing=indexing, sparse=sparse)
+            ref = np.meshgrid(xs, ys, indexing=indexing, sparse=sparse)
+            if len(got) != len(ref) or type(got) is not type(ref):
+                raise Violation(f"meshgrid({tag}): returns {type(got).__name__} of {len(got)}, NumPy {type(ref).__name__} of {len(ref)}")
+            for gi, ri in zip(got, ref):
+                _cmp(f"meshgrid({tag}, indexing={indexing}, sparse={sparse})", gi, ri)
+    f = lambda i, j: i * 10 + j - k
+    for dt in (None, int):
+        _cmp(f"fromfunction({tag}, dtype={dt})", da.fromfunction(f, shape=(N, M), chunks=(c, c2), dtype=dt), np.fromfunction(f, (N, M), dtype=dt or float))
+    _cmp(f"tri({tag}, k={k})", da.tri(N, M, k, chunks=(c, c2)), np.tri(N, M, k))
+
+
 # ----------------------------------------------------------------------------- (2) eye
 
 
-def mk_eye(nmax, cmax, kmax):
+def mk_eye(nmax, cmax, kmax, max_blocks=None, every=4):
     def setup(e):
         N = e.int("N", 0, nmax)
         M = None if e.flag("M_none") else e.int("M", 0, nmax)
@@ -243,6 +311,8 @@ def mk_eye(nmax, cmax, kmax):
         k = e.int("k", -kmax, kmax)
         r = e.int("r", 0, nmax)
         q = e.int("q", 0, nmax)
+        if max_blocks is not None:
+            e.assume(lambda: (N <= max_blocks * c) & ((M if M is not None else 0) <= max_blocks * c))
         return N, M, c, k, r, q
 
     def run(e, N, M, c, k, r, q):
@@ -291,8 +361,11 @@ def mk_eye(nmax, cmax, kmax):
         M = None if model.get("M_none") else model["M"]
         for dt in (float, int, None):
             _cmp(f"eye({N}, chunks={c}, M={M}, k={k}, dtype={dt})", da.eye(N, chunks=c, M=M, k=k, dtype=dt), np.eye(N, M, k, dtype=dt or float))
+        _cmp(f"eye({N}, M={M}, k={k}) default chunks", da.eye(N, M=M, k=k), np.eye(N, M, k))
+        _e2e_2d(N, N if M is None else M, c, k)
 
-    return Obligation(f"eye[N,M<={nmax},c<={cmax},|k|<={kmax}]", setup, run, patches=_patches, e2e=e2e, e2e_every=3)
+    nb = "" if max_blocks is None else f",blocks<={max_blocks}"
+    return Obligation(f"eye[N,M<={nmax},c<={cmax},|k|<={kmax}{nb}]", setup, run, patches=_patches, e2e=e2e, e2e_every=every)
 
 
 
@@ -321,18 +394,17 @@ def mk_tri(nmax, kmax, specs):
         _clear()
         Mx = N if M is None else M
         rec = _Rec()
-        real_ge = CR.greater_equal
 
         def ge(a, b):
             rec.calls.append((a, b))
-            return real_ge(a, b)
+            return rec
 
+        rec.astype = lambda dtype, **kw: (rec.calls.append(np.dtype(dtype)), rec)[1]
         with patched((CR, "greater_equal", ge)):
-            arr = da.tri(N, M, k, dtype=int, chunks=spec)
-        e.check(len(rec.calls) == 1, "tri did not compare two index arrays exactly once")
+            res = da.tri(N, M, k, dtype=int, chunks=spec)
+        e.check(res is rec and len(rec.calls) == 2 and rec.calls[1] == np.tri(1, dtype=int).dtype,
+                "tri is not greater_equal(rows, columns).astype(dtype)")
         a, b = rec.calls[0]
-        e.check(arr.shape == (N, Mx) and tuple(_tot(c) for c in arr.chunks) == (N, Mx), "lazy chunks do not add up to (N, M)")
-        e.check(arr.dtype == np.tri(1, dtype=int).dtype, "dtype")
         # left operand: all sizes are concrete, so it is simply computed (row index column)
         av = a.compute(scheduler="sync")
         e.check(av.shape == (N, 1), "row operand is not an (N, 1) column")
@@ -353,7 +425,7 @@ def mk_tri(nmax, kmax, specs):
                     e.check(lambda: (ar >= bval) == (q - r <= k), "greater_equal(rows, columns)[r, q] differs from NumPy's tri: q <= r + k")
             obs.append((b0, n))
         _clear()
-        return [tuple(arr.chunks), obs]
+        return [tuple(b.chunks[0]), obs]
 
     def e2e(model):
         N = sizes[model.get("N", 0)]
@@ -483,7 +555,7 @@ def mk_diag1d(nblocks, kmax):
 
     def e2e(model):
         ds = tuple(model[f"d{i}"] % 4 for i in range(nblocks))
-        k = model["k"]
+        k = max(-5, min(5, model["k"]))        # the padded witness has (n+|k|)**2 elements: sign and zero-ness of k kept, size clipped
         x = np.arange(sum(ds)) + 1
         for dv in (da.from_array(x, chunks=(ds,)), da.from_array(x, chunks=max(1, ds[0]))):
             _cmp(f"diag(1-d chunks={dv.chunks}, k={k})", da.diag(dv, k), np.diag(x, k))
@@ -536,9 +608,9 @@ def mk_diag2d(nblocks):
 
 # ----------------------------------------------------------------------------- (3c) diagonal (NumPy integer arithmetic: enumerated)
 
-DIAGONAL_CHUNKS = ((1, 1), (2, 2), (3, 3), (1, 2), (3, 2), (2, 5), (5, 1))
-AXES2 = ((0, 1), (1, 0), (-2, -1), (-1, 0))
-AXES3 = ((0, 1), (0, 2), (1, 2), (1, 0), (2, 0), (2, 1), (-1, -3))
+DIAGONAL_CHUNKS = ((1, 2), (2, 2), (3, 1), (2, 3), (1, 1), (3, 3), (2, 5), (5, 1))
+AXES2 = ((0, 1), (1, 0), (-1, -2))
+AXES3 = ((0, 1), (0, 2), (1, 2), (2, 0), (-2, -3))
 
 
 def _diagonal_struct(e, a, x, off, ax1, ax2, what):
@@ -576,41 +648,47 @@ def _diagonal_struct(e, a, x, off, ax1, ax2, what):
             want = {p1: max(0, -off) + tt, p2: max(0, off) + tt}
             have = {b1: starts[b1][bidx[b1]] + max(0, -kl) + l, b2: starts[b2][bidx[b2]] + max(0, kl) + l}
             e.check(want == have, f"{what}: element {tt} of the diagonal is read from {have}, NumPy reads {want}")
-    got = d.compute(scheduler="sync")
-    e.check(got.shape == ref.shape and got.dtype == ref.dtype and bool((got == ref).all()), f"{what}: values differ from NumPy's")
     return tuple(d.chunks[-1])
 
 
-def mk_diagonal(nmax, kmax, three_d):
+def mk_diagonal(nmax, three_d, chunk_opts):
     sizes = list(range(nmax + 1))
+    offsets = list(range(-nmax - 1, nmax + 2))
 
     def setup(e):
         N = e.pick("N", sizes)
         M = e.pick("M", sizes)
-        ch = e.pick("ch", DIAGONAL_CHUNKS)
+        ch = e.pick("ch", chunk_opts)
         return N, M, ch
+
+    def build(N, M, ch):
+        if three_d:
+            x = np.arange(N * 3 * M).reshape(N, 3, M)
+            return x, da.from_array(x, chunks=(ch[0], 2, ch[1])), AXES3
+        x = np.arange(N * M).reshape(N, M)
+        return x, da.from_array(x, chunks=ch), AXES2
 
     def run(e, N, M, ch):
         _clear()
         obs = []
-        if three_d:
-            x = np.arange(N * 3 * M).reshape(N, 3, M)
-            a = da.from_array(x, chunks=(ch[0], 2, ch[1]))
-            axes = AXES3
-        else:
-            x = np.arange(N * M).reshape(N, M)
-            a = da.from_array(x, chunks=ch)
-            axes = AXES2
+        x, a, axes = build(N, M, ch)
         for (ax1, ax2) in axes:
-            for off in range(-kmax, kmax + 1):
+            for off in offsets:
                 obs.append(_diagonal_struct(e, a, x, off, ax1, ax2, f"diagonal(shape={x.shape}, chunks={a.chunks}, offset={off}, axes=({ax1},{ax2}))"))
-        if not three_d:
-            for off in range(-kmax, kmax + 1):
-                _cmp(f"diag(2-d shape={x.shape}, chunks={a.chunks}, k={off})", da.diag(a, off), np.diag(x, off))
         _clear()
         return obs
 
-    return Obligation(f"diagonal[{'3d' if three_d else '2d'},N,M<={nmax},|offset|<={kmax}]", setup, run)
+    def e2e(model):
+        N, M, ch = sizes[model.get("N", 0)], sizes[model.get("M", 0)], chunk_opts[model.get("ch", 0)]
+        x, a, axes = build(N, M, ch)
+        for (ax1, ax2) in axes:
+            for off in offsets:
+                _cmp(f"diagonal(shape={x.shape}, chunks={a.chunks}, offset={off}, axes=({ax1},{ax2}))", da.diagonal(a, off, ax1, ax2), np.diagonal(x, off, ax1, ax2))
+        if not three_d:
+            for off in offsets:
+                _cmp(f"diag(2-d shape={x.shape}, chunks={a.chunks}, k={off})", da.diag(a, off), np.diag(x, off))
+
+    return Obligation(f"diagonal[{'3d' if three_d else '2d'},N,M<={nmax}]", setup, run, e2e=e2e, e2e_every=1)
 
 
 # ----------------------------------------------------------------------------- (4) ones / zeros / full: lazy chunks and block shapes
@@ -620,12 +698,17 @@ WRAPPED = ("ones", "zeros", "full", "empty")
 
 def mk_wrap(ndim, smax, cmax):
     def setup(e):
-        which = e.pick("which", WRAPPED)
         shape = tuple(e.int(f"s{i}", 0, smax) for i in range(ndim))
         cs = tuple(e.int(f"c{i}", 1, cmax) for i in range(ndim))
-        return which, shape, cs
+        return shape, cs
 
-    def run(e, which, shape, cs):
+    def run(e, shape, cs):
+        out = []
+        for which in WRAPPED:
+            out.append(run1(e, which, shape, cs))
+        return out
+
+    def run1(e, which, shape, cs):
         _clear()
         if which == "full":
             arr = da.full(shape, 7, chunks=cs, dtype="i8")
@@ -688,15 +771,17 @@ def obligations(tier):
     obs = []
     if tier == "quick":
         obs.append(mk_arange(8, 9, (1, 2, 3, -1, -2, -3)))
+        obs.append(mk_arange(1000, 2001, (1, 2, 3, 7, -1, -2, -3, -7), max_blocks=4, every=7))
         obs.append(mk_eye(6, 7, 8))
+        obs.append(mk_eye(300, 301, 700, max_blocks=3, every=9))
         obs.append(mk_tri(4, 50, TRI_SPECS))
         for nb in (1, 2, 3):
             obs.append(mk_diag1d(nb, 1000))
             obs.append(mk_diag2d(nb))
-        obs.append(mk_diagonal(4, 5, False))
-        obs.append(mk_diagonal(3, 3, True))
+        obs.append(mk_diagonal(4, False, DIAGONAL_CHUNKS[:5]))
+        obs.append(mk_diagonal(2, True, DIAGONAL_CHUNKS[:3]))
         obs.append(mk_wrap(1, 8, 9))
-        obs.append(mk_wrap(2, 5, 6))
+        obs.append(mk_wrap(2, 4, 5))
     else:
         obs.append(mk_arange(12, 13, (1, 2, 3, 4, -1, -2, -3, -4)))
         obs.append(mk_eye(9, 10, 12))
@@ -704,8 +789,8 @@ def obligations(tier):
         for nb in (1, 2, 3, 4):
             obs.append(mk_diag1d(nb, 1000))
             obs.append(mk_diag2d(nb))
-        obs.append(mk_diagonal(6, 7, False))
-        obs.append(mk_diagonal(4, 4, True))
+        obs.append(mk_diagonal(6, False, DIAGONAL_CHUNKS))
+        obs.append(mk_diagonal(4, True, DIAGONAL_CHUNKS))
         obs.append(mk_wrap(1, 12, 13))
         obs.append(mk_wrap(2, 7, 8))
     return obs
